@@ -5,6 +5,7 @@ package kf
 
 import (
 	"fmt"
+	"sort"
 	"strings"
 
 	"golang.org/x/net/idna"
@@ -19,6 +20,9 @@ import (
 func init() {
 	core.RegisterClassifier("ace-label-of-std3-fallback", aceLabelOfSTD3Fallback)
 	core.RegisterClassifier("searchparams-serializer-uses-query-set", serializerUsesQuerySet)
+	core.RegisterClassifier("canonical-query-reserialized-by-known-serializer", canonicalQueryReserialized)
+	core.RegisterClassifier("repeated-decoding-of-opaque-host", repeatedDecodingOfOpaqueHost)
+	core.RegisterClassifier("sorted-query-reserialized-by-known-serializer", sortedQueryReserialized)
 }
 
 // hostOfHref cuts the host out of a serialized URL (scheme://[userinfo@]host[:port]...).
@@ -137,6 +141,167 @@ func knownEscape(s string) string {
 		}
 	}
 	return sb.String()
+}
+
+// hasOption reports whether the case's configuration contains the option.
+func hasOption(c *core.Case, name string) bool {
+	if c == nil {
+		return false
+	}
+	for _, o := range c.Config {
+		if o == name {
+			return true
+		}
+	}
+	return false
+}
+
+func repeatedDecodeBytes(s string) string {
+	for {
+		d := string(refmodel.PercentDecode([]byte(s)))
+		if d == s {
+			return s
+		}
+		s = d
+	}
+}
+
+const hexU = "0123456789ABCDEF"
+
+// encodeBytes percent-encodes bytes <= 0x20, > 0x7E and those in extra.
+func encodeBytes(s, extra string) string {
+	var sb strings.Builder
+	for i := 0; i < len(s); i++ {
+		b := s[i]
+		if b <= 0x20 || b > 0x7E || strings.IndexByte(extra, b) >= 0 {
+			sb.WriteByte('%')
+			sb.WriteByte(hexU[b>>4])
+			sb.WriteByte(hexU[b&15])
+		} else {
+			sb.WriteByte(b)
+		}
+	}
+	return sb.String()
+}
+
+// KF-B seen through a canonicalization profile (C17): profiles that sort the query or decode
+// it repeatedly re-serialize the parameter list with the known serializer (KF-B), which is
+// not stable for '+', '&', '=' and '%HH'.  The finding explains a non-idempotence iff the
+// second canonical string is EXACTLY the first one with its query replaced by what that
+// known re-serialization makes of it (prefix and fragment untouched).
+func canonicalQueryReserialized(prop string, v *core.Violation) bool {
+	s1, ok1 := v.Expected.(string)
+	s2, ok2 := v.Observed.(string)
+	if !ok1 || !ok2 || s1 == s2 || v.Case == nil {
+		return false
+	}
+	sortKeys := hasOption(v.Case, "sort:keys") || hasOption(v.Case, "profile:WhatWgSortQuery")
+	sortParam := hasOption(v.Case, "sort:param")
+	repeated := hasOption(v.Case, "repeateddecode")
+	if hasOption(v.Case, "sort:keys") && hasOption(v.Case, "sort:param") {
+		return false
+	}
+	if !sortKeys && !sortParam && !repeated {
+		return false
+	}
+	frag := ""
+	rest := s1
+	if i := strings.IndexByte(rest, '#'); i >= 0 {
+		rest, frag = rest[:i], rest[i:]
+	}
+	qi := strings.IndexByte(rest, '?')
+	if qi < 0 {
+		return false
+	}
+	prefix, query := rest[:qi], rest[qi+1:]
+	pairs := refmodel.ParseURLEncodedRaw(query)
+	if repeated && query != "" {
+		for i := range pairs {
+			pairs[i].Name = encodeBytes(repeatedDecodeBytes(pairs[i].Name), "#%&=")
+			pairs[i].Value = encodeBytes(repeatedDecodeBytes(pairs[i].Value), "#%&=")
+		}
+	}
+	if sortKeys {
+		sort.SliceStable(pairs, func(i, j int) bool { return pairs[i].Name < pairs[j].Name })
+	}
+	if sortParam {
+		sort.SliceStable(pairs, func(i, j int) bool { return pairs[i].Name+pairs[i].Value < pairs[j].Name+pairs[j].Value })
+	}
+	var sb strings.Builder
+	for i, p := range pairs {
+		if i > 0 {
+			sb.WriteByte('&')
+		}
+		sb.WriteString(knownEscape(p.Name))
+		sb.WriteByte('=')
+		sb.WriteString(knownEscape(p.Value))
+	}
+	return s2 == prefix+"?"+sb.String()+frag
+}
+
+// KF-B seen through sort-query (C16): sorting re-serializes the list with the known serializer.
+// Witness shape: Expected is the query before sorting, Observed the query after; the finding
+// explains the changed multiset iff the observed query is EXACTLY the known serialization of
+// the (stably sorted) raw urlencoded parse of the query before.
+func sortedQueryReserialized(prop string, v *core.Violation) bool {
+	before, ok1 := v.Expected.(string)
+	after, ok2 := v.Observed.(string)
+	if !ok1 || !ok2 || v.Case == nil {
+		return false
+	}
+	pairs := refmodel.ParseURLEncodedRaw(before)
+	switch {
+	case hasOption(v.Case, "sort:keys"):
+		sort.SliceStable(pairs, func(i, j int) bool { return pairs[i].Name < pairs[j].Name })
+	case hasOption(v.Case, "sort:param"):
+		sort.SliceStable(pairs, func(i, j int) bool { return pairs[i].Name+pairs[i].Value < pairs[j].Name+pairs[j].Value })
+	default:
+		return false
+	}
+	var sb strings.Builder
+	for i, p := range pairs {
+		if i > 0 {
+			sb.WriteByte('&')
+		}
+		sb.WriteString(knownEscape(p.Name))
+		sb.WriteByte('=')
+		sb.WriteString(knownEscape(p.Value))
+	}
+	return sb.String() == after
+}
+
+// KF-C: repeated percent-decoding is applied to an opaque host as well; when the fully
+// decoded host contains a forbidden host code point (a delimiter such as '?', '/', '#', ':')
+// the host setter cuts the host there, so the canonical form is not stable.  Witness shape:
+// the profile has repeated decoding, the first canonical string is a non-special URL with an
+// authority, and its host, percent-decoded to a fixed point, contains a forbidden host code point.
+func repeatedDecodingOfOpaqueHost(prop string, v *core.Violation) bool {
+	s1, ok := v.Expected.(string)
+	if !ok || v.Case == nil || !hasOption(v.Case, "repeateddecode") {
+		return false
+	}
+	i := strings.Index(s1, "://")
+	if i < 0 {
+		return false
+	}
+	switch strings.ToLower(s1[:i]) {
+	case "http", "https", "ftp", "ws", "wss", "file":
+		return false
+	}
+	host := hostOfHref(s1)
+	if strings.HasPrefix(host, "[") {
+		return false
+	}
+	dec := repeatedDecodeBytes(host)
+	if dec == host {
+		return false
+	}
+	for _, r := range dec {
+		if refmodel.IsForbiddenHost(r) {
+			return true
+		}
+	}
+	return false
 }
 
 var _ = fmt.Sprint
